@@ -62,9 +62,12 @@ pub fn campaign_sub(ctx: &mut Ctx, target: &str, sub: Option<&str>, jobs: usize,
             }
         }
         if sub.is_some() {
-            // random starting inputs of several lengths (the bytes are a random stream for a proptest strategy)
-            for (k, len) in [16usize, 64, 256, 1024, 3000].into_iter().enumerate() {
-                let mut x = derive_seed(ctx.seed, &ctx.property, &tag, (j * 8 + k) as u64) | 1;
+            // many independent random starting inputs of all lengths (the bytes are the random stream of a proptest
+            // strategy): mutation alone explores combinations of independent choices far more slowly than fresh draws do
+            let lens = [16usize, 64, 256, 1024, 3000.min(max_len), max_len / 2, max_len * 3 / 4, max_len];
+            for k in 0..320usize {
+                let len = lens[k % lens.len()];
+                let mut x = derive_seed(ctx.seed, &ctx.property, &tag, (j * 1000 + k) as u64) | 1;
                 let bytes: Vec<u8> = (0..len)
                     .map(|_| {
                         x ^= x << 13;
@@ -87,6 +90,8 @@ pub fn campaign_sub(ctx: &mut Ctx, target: &str, sub: Option<&str>, jobs: usize,
                 format!("-max_len={max_len}"),
                 format!("-artifact_prefix={arts}"),
                 "-print_final_stats=1".to_string(),
+                // comparisons against thresholds and magic words become coverage features for the strategy-driven target
+                format!("-use_value_profile={}", u8::from(sub.is_some())),
             ])
             .env("VERIF_DIR", &vd)
             .env("VERIF_FUZZ_SUB", sub.unwrap_or(""))
